@@ -15,30 +15,136 @@ verus! {
 
 //@@ subst \b(Self|Uint)::(ZERO|ONE|MAX|BITS|LOG2_BITS)\b(?!\() => \1::\2()
 //@@ subst \bUint::<(\w+)>::(ZERO|ONE|MAX|BITS)\b(?!\() => Uint::<\1>::\2()
-//@@ fn src/uint/div.rs | impl<const LIMBS: usize> Uint<LIMBS> | div_rem | stub | props C02 C11 C15
+//@@ fn src/uint/div.rs | impl<const LIMBS: usize> Uint<LIMBS> | div_rem | body | props C02 C11 C15
 impl<const LIMBS: usize> Uint<LIMBS> {
-#[verifier::external_body]
 pub const fn div_rem(&self, rhs: &NonZero<Self>) -> (ret__: (Self, Self))
 //@+
     requires 1 <= LIMBS < 0x400_0000, rhs.0.v() != 0
     ensures ret__.0.v() * rhs.0.v() + ret__.1.v() == self.v(), 0 <= ret__.1.v() < rhs.0.v()
 //@-
 {
-    unimplemented!()
-}
+        // Based on Section 4.3.1, of The Art of Computer Programming, Volume 2, by Donald E. Knuth.
+        // Further explanation at https://janmr.com/blog/2014/04/basic-multiple-precision-long-division/
+        // Statically determined short circuit for Uint<1>
+        if LIMBS == 1 {
+            let (quo, rem_limb) = self.div_rem_limb(rhs.0.limbs[0].to_nz().expect("zero divisor"));
+            let mut rem = Self::ZERO();
+            rem.limbs[0] = rem_limb;
+            return (quo, rem);
+        }
+        let dbits = rhs.0.bits();
+        assert!(dbits > 0, "zero divisor");
+        let dwords = dbits.div_ceil(Limb::BITS);
+        let lshift = (Limb::BITS - (dbits % Limb::BITS)) % Limb::BITS;
+        // Shift entire divisor such that the high bit is set
+        let mut y = rhs.0.shl(Self::BITS() - dbits).to_limbs();
+        // Shift the dividend to align the words
+        let (x, mut x_hi) = self.shl_limb(lshift);
+        let mut x = x.to_limbs();
+        let mut xi = LIMBS - 1;
+        let mut x_lo = x[LIMBS - 1];
+        let mut i;
+        let mut carry;
+        let reciprocal = Reciprocal::new(y[LIMBS - 1].to_nz().expect("zero divisor"));
+        while xi > 0
+{
+            // Divide high dividend words by the high divisor word to estimate the quotient word
+            let mut quo = div3by2(x_hi.0, x_lo.0, x[xi - 1].0, &reciprocal, y[LIMBS - 2].0);
+            // This loop is a no-op once xi is smaller than the number of words in the divisor
+            let done = ConstChoice::from_u32_lt(xi as u32, dwords - 1);
+            quo = done.select_word(quo, 0);
+            // Subtract q*divisor from the dividend
+            carry = Limb::ZERO;
+            let mut borrow = Limb::ZERO;
+            let mut tmp;
+            i = 0;
+            while i <= xi
+{
+                let (__t0, __t1) = Limb::ZERO.mac(y[LIMBS - xi + i - 1], Limb(quo), carry); tmp = __t0; carry = __t1;
+                let (__t2, __t3) = x[i].sbb(tmp, borrow); x[i] = __t2; borrow = __t3;
+                i += 1;
+            }
+            let (_, __t4) = x_hi.sbb(carry, borrow); borrow = __t4;
+            // If the subtraction borrowed, then decrement q and add back the divisor
+            // The probability of this being needed is very low, about 2/(Limb::MAX+1)
+            let ct_borrow = ConstChoice::from_word_mask(borrow.0);
+            carry = Limb::ZERO;
+            i = 0;
+            while i <= xi
+{
+                let (__t5, __t6) = x[i].adc( Limb::select(Limb::ZERO, y[LIMBS - xi + i - 1], ct_borrow), carry, ); x[i] = __t5; carry = __t6;
+                i += 1;
+            }
+            quo = ct_borrow.select_word(quo, quo.saturating_sub(1));
+            // Store the quotient within dividend and set x_hi to the current highest word
+            x_hi = Limb::select(x[xi], x_hi, done);
+            x[xi] = Limb::select(Limb(quo), x[xi], done);
+            x_lo = Limb::select(x[xi - 1], x_lo, done);
+            xi -= 1;
+        }
+        let limb_div = ConstChoice::from_u32_eq(1, dwords);
+        // Calculate quotient and remainder for the case where the divisor is a single word
+        // Note that `div2by1()` will panic if `x_hi >= reciprocal.divisor_normalized`,
+        // but this can only be the case if `limb_div` is falsy,
+        // in which case we discard the result anyway,
+        // so we conditionally set `x_hi` to zero for this branch.
+        let x_hi_adjusted = Limb::select(Limb::ZERO, x_hi, limb_div);
+        let (quo2, rem2) = div2by1(x_hi_adjusted.0, x_lo.0, &reciprocal);
+        // Adjust the quotient for single limb division
+        x[0] = Limb::select(x[0], Limb(quo2), limb_div);
+        // Copy out the remainder
+        y[0] = Limb::select(x[0], Limb(rem2), limb_div);
+        i = 1;
+        while i < LIMBS
+{
+            y[i] = Limb::select(Limb::ZERO, x[i], ConstChoice::from_u32_lt(i as u32, dwords));
+            y[i] = Limb::select(y[i], x_hi, ConstChoice::from_u32_eq(i as u32, dwords - 1));
+            i += 1;
+        }
+        (
+            Uint::new(x).shr((dwords - 1) * Limb::BITS),
+            Uint::new(y).shr(lshift),
+        )
+    }
 }
 //@@ end
-//@@ fn src/uint/div.rs | impl<const LIMBS: usize> Uint<LIMBS> | rem | stub | props C02 C11 C15
+//@@ fn src/uint/div.rs | impl<const LIMBS: usize> Uint<LIMBS> | rem | body | props C02 C11 C15
 impl<const LIMBS: usize> Uint<LIMBS> {
-#[verifier::external_body]
 pub const fn rem(&self, rhs: &NonZero<Self>) -> (ret__: Self)
 //@+
     requires 1 <= LIMBS < 0x400_0000, rhs.0.v() != 0
     ensures ret__.v() == self.v() % rhs.0.v()
 //@-
 {
-    unimplemented!()
+        self.div_rem(rhs).1
+    }
 }
+//@@ end
+//@@ fn src/uint/div.rs | impl<const LIMBS: usize> Uint<LIMBS> | wrapping_div | body | props C02 C11
+impl<const LIMBS: usize> Uint<LIMBS> {
+pub const fn wrapping_div(&self, rhs: &NonZero<Self>) -> (ret__: Self)
+{
+        self.div_rem(rhs).0
+    }
+}
+//@@ end
+//@@ fn src/uint/div.rs | impl<const LIMBS: usize> Uint<LIMBS> | checked_div | body | props C02 C11
+impl<const LIMBS: usize> Uint<LIMBS> {
+pub fn checked_div(&self, rhs: &Self) -> (ret__: CtOption<Self>)
+{
+        NonZero::new(*rhs).map(|rhs| {
+            let (q, _r) = self.div_rem(&rhs);
+            q
+        })
+    }
+}
+//@@ end
+//@@ fn src/uint/div.rs | impl<const LIMBS: usize> Uint<LIMBS> | checked_rem | body | props C02 C11
+impl<const LIMBS: usize> Uint<LIMBS> {
+pub fn checked_rem(&self, rhs: &Self) -> (ret__: CtOption<Self>)
+{
+        NonZero::new(*rhs).map(|rhs| self.rem(&rhs))
+    }
 }
 //@@ end
 
